@@ -647,9 +647,22 @@ def find_known(ctx, fid):
     return None
 
 
+FAIL_CAP = 4
+
+
+def want_shrink(ctx, stream, verdict):
+    """shrink (and report in full) only the first few failures of a stream; the rest are counted"""
+    n = ctx.notes.setdefault('failures_per_stream', {})
+    key = stream + ':' + verdict['status']
+    n[key] = n.get(key, 0) + 1
+    return n[key] <= FAIL_CAP
+
+
 def report(ctx, stream, idx, case, verdict, shrunk=None):
     """verdict: dict(status, why, ...). routes to violation / known finding / correspondence breakage"""
     st = verdict['status']
+    if st in ('violation', 'corr') and ctx.notes.get('failures_per_stream', {}).get(stream + ':' + st, 0) > FAIL_CAP:
+        return
     if st == 'known':
         k = find_known(ctx, verdict['fid'])
         if k is not None:
@@ -783,10 +796,11 @@ def stream_dpl(ctx, rr, n):
         if v.get('out') is not None and v.get('out') == v.get('mout'): d['exact_equal'] += 1
         if v['status'] in ('violation', 'corr'):
             sh = None
-            try:
-                sh = shrink_pts(rr, c, judge_dpl, v['status'])
-            except Exception:
-                pass
+            if want_shrink(ctx, 'dpl', v):
+                try:
+                    sh = shrink_pts(rr, c, judge_dpl, v['status'])
+                except Exception:
+                    pass
             report(ctx, 'dpl', i, c, v, sh)
         elif v['status'] == 'known':
             report(ctx, 'dpl', i, c, v)
@@ -1032,10 +1046,11 @@ def stream_simpl(ctx, rr, n, name, ops, doubles=False):
         d['collapse'] += 1 if v.get('class') == 'collapse' else 0; d['repair'] += 1 if v.get('class') == 'repair' else 0
         if v['status'] in ('violation', 'corr'):
             sh = None
-            try:
-                sh = shrink_geom(rr, c, judge_simpl, v['status'])
-            except Exception:
-                pass
+            if want_shrink(ctx, name, v):
+                try:
+                    sh = shrink_geom(rr, c, judge_simpl, v['status'])
+                except Exception:
+                    pass
             report(ctx, name, i, c, v, sh)
         elif v['status'] == 'known':
             report(ctx, name, i, c, v)
@@ -1124,10 +1139,11 @@ def stream_hull(ctx, rr, n):
         d['dropped'] += 1 if v.get('dropped') else 0
         if v['status'] == 'violation':
             sh = None
-            try:
-                sh = shrink_geom(rr, c, judge_hull, 'violation')
-            except Exception:
-                pass
+            if want_shrink(ctx, 'hull', v):
+                try:
+                    sh = shrink_geom(rr, c, judge_hull, 'violation')
+                except Exception:
+                    pass
             report(ctx, 'hull', i, c, v, sh)
     ctx.notes.setdefault('distribution', {})['hull'] = dist
     if cases:
@@ -1272,10 +1288,11 @@ def stream_cov(ctx, rr, n):
         dist['holes'] += 1 if any(len(p) > 1 for e in c['elems'] for p in e) else 0
         if v['status'] == 'violation':
             sh = None
-            try:
-                sh = shrink_cov(rr, c)
-            except Exception:
-                pass
+            if want_shrink(ctx, 'cov', v):
+                try:
+                    sh = shrink_cov(rr, c)
+                except Exception:
+                    pass
             report(ctx, 'cov', i, c, v, sh)
     ctx.notes.setdefault('distribution', {})['cov'] = dist
     for need in ('dropped', 'preserve', 'with_nodes3', 'holes'):
@@ -1318,10 +1335,11 @@ def stream_derived(ctx, rr, n):
         d['dropped'] += 1 if v.get('dropped') else 0; d['tol0'] += 1 if c['tol'] == 0 else 0
         if v['status'] in ('violation', 'corr'):
             sh = None
-            try:
-                sh = shrink_geom(rr, c, judge_simpl, v['status'])
-            except Exception:
-                pass
+            if want_shrink(ctx, 'derived', v):
+                try:
+                    sh = shrink_geom(rr, c, judge_simpl, v['status'])
+                except Exception:
+                    pass
             report(ctx, 'derived', i, c, v, sh)
         elif v['status'] == 'known':
             report(ctx, 'derived', i, c, v)
